@@ -304,8 +304,15 @@ func (fr *frame) invoke(st *state, c *ssa.CallCommon, instr ssa.Instruction, pos
 		fr.oblige(st, "nil", anchor, pos, fmt.Sprintf("(not (= (vtag %s) 0))", recv), "method call on nil interface")
 		// a nil pointer inside a non-nil interface: calling a value-receiver method through it panics in the
 		// call instruction itself (runtime wrapper), before any user code runs
-		e.u.global("(declare-fun kindof (Int) Int)")
-		fr.oblige(st, "nilrecv", anchor, pos, fmt.Sprintf("(not (and (= (kindof (vtag %s)) 22) (= (vpay %s) 0)))", recv, recv), "method call through a typed nil pointer")
+		// (only for the value interfaces of package stick, through which arbitrary user values flow;
+		// a typed nil Node, Expr, visitor, loader or writer is a caller error outside every property)
+		if n, ok := types.Unalias(c.Value.Type()).(*types.Named); ok {
+			switch qualName(n) {
+			case "stick.Stringer", "stick.Number", "stick.Boolean", "stick.SafeValue":
+				e.u.global("(declare-fun kindof (Int) Int)")
+				fr.oblige(st, "nilrecv", anchor, pos, fmt.Sprintf("(not (and (= (kindof (vtag %s)) 22) (= (vpay %s) 0)))", recv, recv), "method call through a typed nil pointer")
+			}
+		}
 	}
 	// contract keyed by interface method: iface:pkg.Iface.Method
 	var ikey string
